@@ -886,6 +886,13 @@ pub fn generate(thorough: bool, seed: u64, out: &mut dyn Write) {
             writeln!(out, "mut {} {} {}", mrng.next() >> 1, 1 + mrng.below(3), l).unwrap();
         }
     }
+    // the same for entries with filler between the mip chains (own stream: the lines above keep their seeds)
+    let mut grng = Rng::new(seed, "C02-mutgap");
+    for l in regular.iter().filter(|l| l.len() < 12000 && l.starts_with("texgap ")) {
+        for _ in 0..2 {
+            writeln!(out, "mut {} {} {}", grng.next() >> 1, 1 + grng.below(3), l).unwrap();
+        }
+    }
     // the inflater the model's `inflate` parameter is instantiated with is itself checked against
     // zlib on every run: streams from zlib's deflate (all levels / strategies) and corrupted ones
     crate::xinf::generate_n(if thorough { 1500 } else { 120 }, thorough, seed, out);
